@@ -607,7 +607,23 @@ def native_check(c, f, nargs, want_kind=None):
             whens.append((exc, None, None, iff))
     node, _ = function_ast(f)
     params = [a.arg for a in node.args.posonlyargs + node.args.args]
-    frame_before = {k: _norm_native(v) for k, v in values.items() if k not in [a.split('.')[0] for a in c.assigns]}
+    alias = getattr(c, 'param_alias', {})
+    def _frame_view(k, val):
+        """normal form of parameter k with everything the contract lets the callee assign removed (None: all of it)"""
+        names = {k, alias.get(k, k)}
+        attrs = set()
+        for a_ in c.assigns:
+            a_ = a_.rstrip('!')
+            base, _, rest = a_.partition('.')
+            if base in names:
+                if not rest:
+                    return None
+                attrs.add(rest.split('.')[0])
+        n_ = _norm_native(val)
+        if attrs and isinstance(n_, tuple) and len(n_) == 3 and n_[0] == 'obj':
+            return ('obj', n_[1], {kk: vv for kk, vv in n_[2].items() if kk not in attrs})
+        return n_
+    frame_before = {k: _frame_view(k, v) for k, v in values.items() if k in c.sig}
     try:
         result = f(*[values[p] for p in params if p in values])
     except Exception as ex:
@@ -635,7 +651,7 @@ def native_check(c, f, nargs, want_kind=None):
             if not x:
                 violated.append('ensures:%s.%d' % (name, i))
     for k, before in frame_before.items():
-        if _norm_native(values[k]) != before:
+        if before is not None and _frame_view(k, values[k]) != before:
             violated.append('assigns:%s changed' % k)
     return {'observation': obs, 'violated': violated, 'pre': True}
 
